@@ -30,7 +30,7 @@ RULE = ("one case = (1..3 transports websocket/rawsocket with their own max_retr
         "{refused, refused (non-OSError), TCP dropped before handshake, transport handshake refused, (asyncio) either of these with connection_lost delivered "
         "BEFORE the future of create_connection() completes, ABORT, joined then TCP "
         "reset, joined then TCP closed, joined then router GOODBYE, joined then application leave, main returns, main "
-        "raises} x stop() at {during the retry delay, connect in flight, TCP up, HELLO sent, joined} of one attempt. One "
+        "raises, leave requested (application / returning main / stop()) then TCP lost BEFORE the GOODBYE reply, joined and staying joined} x stop() at {during the retry delay, connect in flight, TCP up, HELLO sent, joined} of one attempt. One "
         "transport: ALL scripts over {refused, handshake refused, (asyncio) handshake refused before the connect result, ABORT, joined-then-lost, main raises | application leave, "
         "main returns} up to length 4 (quick) / 5 (thorough) for every max_retries value, and stop() at every phase of "
         "every attempt of the scripts up to length 2 (quick) / 3 (thorough); 2-3 transports and the remaining outcome "
@@ -50,6 +50,12 @@ ASSUMPTIONS = [
     "main raising is a grey zone of the statement ('with an error when main fails' vs. 'a failed connection leads to a new attempt'): both an "
     "immediate completion with an error and treating it like a failed connection (new attempt within the budget) are accepted; a SUCCESSFUL "
     "completion caused by nothing but a failing main is not",
+    "a session that joined must reach the component's listeners with connect, join, ready exactly once and - once its transport is gone - leave and "
+    "disconnect exactly once, whatever ended it (incl. a transport loss while its own GOODBYE is unanswered): derived from the script, not from the session's hooks",
+    "leave requested by the application and cut short by a transport loss (Gl) is a lost connection (new attempt expected); main returning and its leave cut short "
+    "(Ml) is a grey zone like a failing main: a successful completion and a retry are both accepted",
+    "stop() is judged at EVERY point, including a first or later attempt that is in flight / connected / HELLO sent and then goes on to join and stay joined "
+    "(outcome J): whatever becomes of that attempt, start() must have completed successfully when the network is quiet; what the left-over connection does is not judged",
     "after stop() the future of start() must have completed successfully once the network is quiet (or after the run's cap of further attempts); "
     "an error completion after stop() is accepted only when every transport was exhausted at that time or main had failed; attempts made after "
     "stop()/after completion are counted (attempts_after_completion) but not judged beyond the budget rules - the statement is silent on them",
@@ -81,7 +87,11 @@ DECIDING = {
     "listener_events_compared": 2000,
     "next_delay_contract_evaluations": 2000,
     "jitter_draws_recorded": 200,
-    "early_teardowns_judged": 100,      # asyncio: connection_lost delivered before the connect future's callbacks ran
+    "early_teardowns_judged": 100,
+    "joined_session_lifecycles_judged": 2000,          # connect/join/ready/leave/disconnect exactly once per joined session (script-derived)
+    "leave_requested_then_lost_judged": 200,           # GOODBYE sent (leave()/main returned/stop()), TCP lost before the reply
+    "stop_before_join_on_retry_judged": 100,           # stop() with a 2nd+ attempt in flight / connected / HELLO sent
+    "stop_before_join_then_joined_judged": 100,        # ... and that attempt went on to join      # asyncio: connection_lost delivered before the connect future's callbacks ran
 }
 
 MAX_RETRIES = [0, 1, 2, 5, -1]
@@ -171,6 +181,7 @@ def judge(case, obs, fw, R=None):
     trigger = obs["t_start"]
     completion_cause = None      # first statement-level cause of completion met while walking ("ok:leave", "ok:main", "err:exhausted")
     main_failed = False
+    main_done_but_lost = False     # main() finished, the leave it triggers was cut short by a transport loss (grey: success or retry)
     after_completion = 0
     exhausted_at = None
     total = [0] * ref.n          # attempts per transport since start() - used ONLY to name the mechanism in a violation key
@@ -235,6 +246,8 @@ def judge(case, obs, fw, R=None):
                 completion_cause = "ok:" + a["end"]
             elif a["joined"] and a["outcome"] == "E":
                 main_failed = True
+            elif a["joined"] and a["outcome"] == "Ml":
+                main_done_but_lost = True
             if completion_cause is None and a["end"] != "left-pending" and not ref.any_left():
                 completion_cause = "err:exhausted"
                 exhausted_at = a["n"]
@@ -256,7 +269,14 @@ def judge(case, obs, fw, R=None):
         cnt("completions_err_judged")
     if stopped:
         cnt("stop_calls_judged")
+        if stop["phase"] in ("inflight", "connected", "handshaken") and stop["n"] >= 1 and not stop.get("cap"):
+            cnt("stop_before_join_on_retry_judged")
+            if any(a["n"] == stop["n"] and a["joined"] for a in attempts):
+                cnt("stop_before_join_then_joined_judged")
         phase = "cap" if (case.get("stop") or {}).get("phase") is None else stop["phase"]
+        if phase == "joined" and case.get("main") == "sync" and any(a["n"] == stop["n"] and a["outcome"] == "E" for a in attempts):
+            # main() had already failed at join time: the component itself is disconnecting that session when stop() arrives
+            phase = "joined-session-already-disconnecting"
         if got is None:
             if settled:
                 viol("C14/stop/%s/never-completes" % phase,
@@ -274,7 +294,7 @@ def judge(case, obs, fw, R=None):
                 viol("C14/done/never-completes/after-%s" % completion_cause[3:],
                      "the session ended with %s but the future of start() never completed" % completion_cause[3:])
         elif completion_cause == "err:exhausted":
-            if got == "ok":
+            if got == "ok" and not main_done_but_lost:
                 viol("C14/done/wrong-polarity/success-after-exhaustion",
                      "start() completed successfully although every transport was exhausted (attempt %s)" % exhausted_at)
             elif got is None and settled:
@@ -282,7 +302,7 @@ def judge(case, obs, fw, R=None):
                      "every transport is exhausted after attempt %s but the future of start() never completed" % exhausted_at)
         else:
             # the script never reached a cause of completion: transports still have attempts left
-            if got == "ok":
+            if got == "ok" and not main_done_but_lost:
                 viol("C14/done/wrong-polarity/success-without-cause",
                      "start() completed successfully without a normal leave, a finished main or stop()")
             elif got == "err" and not main_failed and attempts and attempts[-1]["end"] != "left-pending":
@@ -308,15 +328,24 @@ def judge(case, obs, fw, R=None):
     for (ev, s), k in hooks.items():
         if ev == "join":
             expected[("ready", s)] = k
+    for a in attempts:
+        if a["joined"] and a.get("session") is not None:
+            cnt("joined_session_lifecycles_judged")
+            if a.get("goodbye_unanswered"):
+                cnt("leave_requested_then_lost_judged")
+            # the statement: every session the component creates reaches the component's listeners - a session that joined
+            # was connected, joined, ready, and (once its transport is gone) has left and disconnected: each exactly once
+            for ev in ("connect", "join", "ready") + (("leave", "disconnect") if a.get("conn_lost") else ()):
+                expected[(ev, a["session"])] = 1
     for key in set(expected) | set(comp_l):
         cnt("listener_events_compared")
         e, g = expected.get(key, 0), comp_l.get(key, 0)
         if g < e:
             viol("C14/listener/%s/not-invoked" % key[0],
-                 "session #%s went through %s %d time(s) but the component's '%s' listener was invoked %d time(s)" % (key[1], key[0], e, key[0], g))
+                 "session #%s: '%s' is due %d time(s) (the session's own hook / its scripted life cycle) but the component's '%s' listener was invoked %d time(s)" % (key[1], key[0], e, key[0], g))
         elif g > e:
             viol("C14/listener/%s/invoked-too-often" % key[0],
-                 "session #%s went through %s %d time(s) but the component's '%s' listener was invoked %d time(s)" % (key[1], key[0], e, key[0], g))
+                 "session #%s: '%s' is due %d time(s) (the session's own hook / its scripted life cycle) but the component's '%s' listener was invoked %d time(s)" % (key[1], key[0], e, key[0], g))
     for key in (set(sess_l) | set(comp_l)) if case.get("taps") else ():
         if sess_l.get(key, 0) != comp_l.get(key, 0):
             viol("C14/listener/%s/differs-from-session-listener" % key[0],
@@ -342,13 +371,16 @@ def judge(case, obs, fw, R=None):
 # workload
 # =====================================================================================================================
 CORE_FAIL = ["R", "H", "A", "L"]
-ALL_OUTCOMES = ["R", "Rx", "Hd", "H", "A", "L", "Lc", "K", "G"]
+ALL_OUTCOMES = ["R", "Rx", "Hd", "H", "A", "L", "Lc", "K", "G", "Gl", "J"]
+ENDS_SCRIPT = ("G", "M", "J")
 
 
-def one_transport_scripts(maxlen, with_main, fw="tx"):
+def one_transport_scripts(maxlen, with_main, fw="tx", extras=False):
     # asyncio: + transport handshake refused with connection_lost delivered BEFORE the connect result (He)
     fail = CORE_FAIL + (["He"] if fw == "aio" else []) + (["E"] if with_main else [])
-    term = ["G"] + (["M"] if with_main else [])
+    # non-terminal extras: leave requested (explicitly / by a returning main) and TCP lost before the GOODBYE reply
+    fail = fail + ["Gl"] + (["Ml"] if with_main else []) if extras else fail
+    term = ["G"] + (["M"] if with_main else []) + ["J"]
     for k in range(0, maxlen + 1):
         for pre in itertools.product(fail, repeat=k):
             yield list(pre)
@@ -388,7 +420,7 @@ def gen_cases(tier, seed, fw):
                     "script": script, "stop": None, "taps": rng.random() < 0.2, "cap": len(script) + (4 if mr == -1 else 8)}))
     # B. stop() at every phase of every attempt
     for main in (None, "sync", "async"):
-        for script in one_transport_scripts(stop_len, bool(main), fw):
+        for script in one_transport_scripts(stop_len, bool(main), fw, extras=True):
             full = script if script else ["R"]
             for at in range(len(full)):
                 for phase in APPLICABLE[full[at]]:
@@ -403,15 +435,15 @@ def gen_cases(tier, seed, fw):
         rng = rng_for()
         nt = rng.choice([1, 2, 2, 3, 3])
         main = rng.choice([None, None, "sync", "async"])
-        alpha = ALL_OUTCOMES + (["He", "Hde"] if fw == "aio" else []) + (["M", "E", "E"] if main else [])
+        alpha = ALL_OUTCOMES + (["He", "Hde"] if fw == "aio" else []) + (["M", "E", "E", "Ml"] if main else [])
         weights_fail_heavy = rng.random() < 0.6
         script = []
         for _j in range(rng.randint(0, 9)):
             o = rng.choice(alpha)
-            if weights_fail_heavy and o in TERMINAL_OK and rng.random() < 0.7:
+            if weights_fail_heavy and o in ENDS_SCRIPT and rng.random() < 0.7:
                 o = rng.choice(["R", "L", "A", "H"] + (["He", "Hde"] if fw == "aio" else []))
             script.append(o)
-            if o in TERMINAL_OK:
+            if o in ENDS_SCRIPT:
                 break
         stop = None
         if script and rng.random() < 0.35:
@@ -527,7 +559,7 @@ MANIFEST_ENTRY = {
              "virtual clock with the network boundary (endpoint.connect / loop.create_connection) owned by the harness; every "
              "connection attempt is time-stamped and answered according to a script of per-attempt outcomes (refused, handshake "
              "refused - on asyncio also with connection_lost delivered before the connect result -, ABORT, joined then lost, router GOODBYE, "
-             "application leave, main returns/raises), with is_fatal "
+             "application leave, main returns/raises, leave cut short by a transport loss, staying joined), with is_fatal "
              "classifiers, retry/back-off grids and stop() at every phase. The attempt log, the completions of start()'s future "
              "and the listener invocations are compared with a reference of the retry policy written from the statement (budget "
              "since last join, fatal errors, round-robin, first attempt undelayed, waits <= max_retry_delay, exactly-once "
